@@ -1,5 +1,12 @@
 package main
 
+import (
+	"os"
+	"regexp"
+
+	"gowp/load"
+)
+
 // Unit is one piece of a property's proof: the functions of one package verified against their
 // contracts (kind "funcs"), or a closure family (kind "family", see family.go).
 type Unit struct {
@@ -124,6 +131,18 @@ var properties = map[string]*Property{
 			"string methods: Index/Slice/Len are compared over an uninterpreted model of strings (same indexing function on both sides)",
 		},
 	},
+	"C22": {
+		ID:    "C22",
+		Title: "The uniform syntax-tree wrapper round-trips every node losslessly",
+		Units: []Unit{
+			{Kind: "funcs", Pkg: "ast2", Funcs: ast2Lemmas()},
+		},
+		NotCovered: []string{
+			"storing children back (Set, Append) and therefore the round trip as a whole: the conversions ToExpr, ToStmt, ... dispatch twice over sixty dynamic types, and their verification conditions were not generated in usable time; Get is covered only for 'which indexes can be read', not for what is read",
+			"the list-like wrappers (BlockStmt, FieldList, File, GenDecl, ReturnStmt, Field) beyond New; the slice wrappers of ast_slice.go; ToNodes; Package (Get and Set are marked TODO in the code)",
+			"positions, resolution information (Obj, Scope, Imports, Unresolved, GoVersion) and comments are outside the comparison (the property is position-insensitive)",
+		},
+	},
 	"C26": {
 		ID:    "C26",
 		Title: "The multiline reader splits input losslessly at complete-statement boundaries",
@@ -182,4 +201,21 @@ var properties = map[string]*Property{
 		NotCovered: []string{"Interp.Cmd: the exact text handed back for evaluation (string slicing around the lookup is uninterpreted: only 'non-empty, evaluation forced' is proved), the command functions themselves",
 			"the exact text of the ambiguity error (strings.Join of the candidate names is specified only as: built from the block of matching names)"},
 	},
+}
+
+// ast2Lemmas: the lemma functions of /repo/ast2/zz_verif_ast2.go (generated by gowp genast2), read
+// from the working tree so that a lemma removed from the file is noticed (vacuity: at least 100).
+func ast2Lemmas() []string {
+	src, err := os.ReadFile(load.RepoDir() + "/ast2/zz_verif_ast2.go")
+	if err != nil {
+		return []string{"verifWrapUnwrap"}
+	}
+	var out []string
+	for _, m := range regexp.MustCompile(`(?m)^func (verif\w+)\(`).FindAllStringSubmatch(string(src), -1) {
+		out = append(out, m[1])
+	}
+	if len(out) < 100 {
+		out = append(out, "verifLemmasMissing")
+	}
+	return out
 }
